@@ -225,11 +225,16 @@ def assemble(mode, items):
     return "\n".join(tu)
 
 
-def compile_tu(src_text, path_base, mode, sanitize=False):
+def compile_tu(src_text, path_base, mode, sanitize=False, build="default"):
     cpp = path_base + ".cpp"
     exe = path_base + ".exe"
     open(cpp, "w").write(src_text)
-    cmd = ["g++", "-std=gnu++17", "-O0", "-w", "-fpermissive", "-I" + EMU, cpp, "-o", exe, "-lpthread"]
+    if build == "tsan":
+        # clang + libomp + Archer: ThreadSanitizer understands the OpenMP runtime's synchronisation (no false positives)
+        cmd = ["clang++", "-std=gnu++17", "-O1", "-g", "-w", "-fsanitize=thread", "-I" + EMU, cpp, "-o", exe, "-lpthread"]
+        sanitize = False
+    else:
+        cmd = ["g++", "-std=gnu++17", "-O0", "-w", "-fpermissive", "-I" + EMU, cpp, "-o", exe, "-lpthread"]
     if mode == "openmp":
         cmd.insert(1, "-fopenmp")
     if sanitize:
@@ -254,10 +259,19 @@ def run_exe(exe, names, ntuples, timeout=180, env=None):
             if isinstance(out, bytes):
                 out = out.decode(errors="replace")
             hang, rc = True, None
+        race = None
         for line in out.splitlines():
+            if "WARNING: ThreadSanitizer" in line and race is None:
+                race = line.strip()
+            elif race and race.count("|") < 3 and re.match(r"\s+#[01] ", line):
+                race += " | " + line.strip()[:120]
             m = re.match(r"RESULT (\S+) (-?\d+) (OK|FAIL)(.*)", line)
             if m and m.group(1) in pending:
-                results.setdefault(m.group(1), []).append((int(m.group(2)), m.group(3) == "OK", m.group(4).strip()))
+                ok = m.group(3) == "OK"
+                txt = m.group(4).strip()
+                if race:
+                    ok, txt, race = False, "race detected in the translated code: " + race[:300] + " ;; " + txt, None
+                results.setdefault(m.group(1), []).append((int(m.group(2)), ok, txt))
         if not hang and "DONE" in out:
             break
         culprit = None
@@ -322,43 +336,55 @@ def run_batch(tr, wd, kernels, tag, modes=MODES, known_filter=None, excl=None, s
         if not items:
             return fails
         sanitize = bool(spec is not None and getattr(spec, "sanitize_bounds", False))
-        base = os.path.join(wd, "%s_%s" % (tag, mode))
-        exe, log = compile_tu(assemble(mode, items), base, mode, sanitize)
-        groups = [items]
-        if exe is None:
-            # isolate the case(s) that do not compile
-            groups = []
-            for j, it in enumerate(items):
-                e1, l1 = compile_tu(assemble(mode, [it]), base + "_%d" % j, mode, sanitize)
-                if e1 is None:
-                    errs = [x for x in l1.splitlines() if "error" in x][:3]
-                    fails.append({"kernel": it[0].name, "mode": mode, "what": "translated code does not compile: " + " | ".join(errs)[:400]})
-                else:
-                    groups.append([it])
-        for gi, g in enumerate(groups):
-            exe_g = exe if exe is not None else base + "_%d.exe" % items.index(g[0])
-            names = [k.name for k, _ in g]
-            env = dict(os.environ)
-            env["OMP_NUM_THREADS"] = "4"
-            rr = run_exe(exe_g, names, {k.name: len(k.calls) for k, _ in g}, env=env)
-            for k, _ in g:
-                bad = [(t, txt) for t, ok, txt in rr.get(k.name, []) if not ok]
-                if not rr.get(k.name):
-                    bad = [(-1, "no result reported")]
-                if bad and known_filter:
-                    # failures that belong to a listed known finding (decided from the result line) are excluded and counted
-                    kept = []
-                    for t, txt in bad:
-                        kid = known_filter(k, mode, txt)
-                        if kid:
-                            excl[kid] = excl.get(kid, 0) + 1
-                        else:
-                            kept.append((t, txt))
-                    bad = kept
-                if bad:
-                    t, txt = bad[0]
-                    vals = k.calls[t] if 0 <= t < len(k.calls) else "?"
-                    fails.append({"kernel": k.name, "mode": mode, "what": "args=%s: %s" % (vals, txt[:400])})
+        # variants: (label, build kind, environment) — default one g++ build run once
+        variants = spec.variants(mode) if (spec is not None and hasattr(spec, "variants")) else [("", "default", {"OMP_NUM_THREADS": "4"})]
+        for build in sorted(set(v[1] for v in variants)):
+            base = os.path.join(wd, "%s_%s%s" % (tag, mode, "" if build == "default" else "_" + build))
+            exe, log = compile_tu(assemble(mode, items), base, mode, sanitize, build)
+            groups = [items]
+            if exe is None:
+                # isolate the case(s) that do not compile
+                groups = []
+                for j, it in enumerate(items):
+                    e1, l1 = compile_tu(assemble(mode, [it]), base + "_%d" % j, mode, sanitize, build)
+                    if e1 is None:
+                        errs = [x for x in l1.splitlines() if "error" in x][:3]
+                        fails.append({"kernel": it[0].name, "mode": mode, "what": "translated code does not compile: " + " | ".join(errs)[:400]})
+                    else:
+                        groups.append([it])
+            failed_already = set()
+            for label, bk, venv in variants:
+                if bk != build:
+                    continue
+                for gi, g in enumerate(groups):
+                    exe_g = exe if exe is not None else base + "_%d.exe" % items.index(g[0])
+                    names = [k.name for k, _ in g if k.name not in failed_already]
+                    if not names:
+                        continue
+                    env = dict(os.environ)
+                    env.update(venv)
+                    rr = run_exe(exe_g, names, {k.name: len(k.calls) for k, _ in g}, env=env)
+                    for k, _ in g:
+                        if k.name not in names:
+                            continue
+                        bad = [(t, txt) for t, ok, txt in rr.get(k.name, []) if not ok]
+                        if not rr.get(k.name):
+                            bad = [(-1, "no result reported")]
+                        if bad and known_filter:
+                            # failures that belong to a listed known finding (decided from the result line) are excluded and counted
+                            kept = []
+                            for t, txt in bad:
+                                kid = known_filter(k, mode, txt)
+                                if kid:
+                                    excl[kid] = excl.get(kid, 0) + 1
+                                else:
+                                    kept.append((t, txt))
+                            bad = kept
+                        if bad:
+                            t, txt = bad[0]
+                            vals = k.calls[t] if 0 <= t < len(k.calls) else "?"
+                            failed_already.add(k.name)
+                            fails.append({"kernel": k.name, "mode": mode, "what": "%sargs=%s: %s" % (("[%s] " % label) if label else "", vals, txt[:400])})
         return fails
     from concurrent.futures import ThreadPoolExecutor
     with ThreadPoolExecutor(max_workers=len(modes)) as ex:
